@@ -118,21 +118,38 @@ def _make_chooser(spec):
     raise engine.HarnessError(spec["mode"])
 
 
+def _validate(jbasis, programs):
+    """Malformed cases (only the structural shrinker can make them) are harness errors."""
+    if not jbasis or not programs or any(not prog for prog in programs):
+        raise engine.HarnessError("C07: empty basis / program")
+    for prog in programs:
+        for q in prog:
+            if not isinstance(q, list) or len(q) != 2 or q[0] not in ("count", "of_length", "in", "up_to", "recreate_count"):
+                raise engine.HarnessError(f"C07: malformed query {q!r}")
+            if q[0] == "in":
+                if sorted(q[1]) != list(range(len(q[1]))):
+                    raise engine.HarnessError(f"C07: malformed query {q!r}")
+            elif not isinstance(q[1], int) or q[1] < 0:
+                raise engine.HarnessError(f"C07: malformed query {q!r}")
+
+
 def check_schedule(case):
     jbasis, programs, spec = case["basis"], case["programs"], case["schedule"]
+    _validate(jbasis, programs)
     rbasis = [_to_ref(b) for b in jbasis]
     Av.clear_cache()
-    av = Av([_to_lib(b) for b in jbasis])
     s = sched.Sched(_make_chooser(spec), TRACE_FILES)
-    real_lock = Av._CACHE_LOCK  # pylint: disable=protected-access
-    Av._CACHE_LOCK = sched.SchedLock(s)  # pylint: disable=protected-access
     old_switch = sys.getswitchinterval()
-    try:
-        funcs = [(lambda prog=prog: [_run_query(av, jbasis, q) for q in prog]) for prog in programs]
-        results, stalled = s.run(funcs)
-    finally:
-        Av._CACHE_LOCK = real_lock  # pylint: disable=protected-access
-        sys.setswitchinterval(old_switch)
+    # every lock permset.py holds or creates becomes cooperative, whatever its locking scheme
+    # (one class-wide lock today); instances made inside the block get cooperative locks too
+    with sched.Interpose(s, permset_mod, [Av] + [c for c in Av.__mro__[1:] if c.__module__.startswith("permuta")]):
+        try:
+            av = Av([_to_lib(b) for b in jbasis])
+            funcs = [(lambda prog=prog: [_run_query(av, jbasis, q) for q in prog]) for prog in programs]
+            results, stalled = s.run(funcs)
+        finally:
+            sys.setswitchinterval(old_switch)
+    Av.clear_cache()
     if stalled:
         raise engine.HarnessError(f"C07 harness: no scheduling progress for {s.stall_s}s (a foreign blocking primitive?)")
     if s.overrun:
@@ -142,6 +159,8 @@ def check_schedule(case):
         return BAD("deadlock", {"trace_len": len(s.trace), "blocked": sorted(s.blocked)})
     for i, (status, val) in enumerate(results):
         if status == "exc":
+            if not engine.is_lib_exception(s.exceptions[i]):
+                raise engine.HarnessError(f"C07 harness: exception outside the library in thread {i}: {val}")
             return BAD("exception", {"thread": i, "exc": val, "switches": s.switches})
         if status != "ok":
             return BAD("aborted", {"thread": i, "status": status})
@@ -164,6 +183,7 @@ def _brief(x):
 def check_stress(case):
     """Real threads, real lock, tiny switch interval.  case: {"basis", "programs", "repeat"}"""
     jbasis, programs = case["basis"], case["programs"]
+    _validate(jbasis, programs)
     rbasis = [_to_ref(b) for b in jbasis]
     want = [[_expected(rbasis, q) for q in prog] for prog in programs]
     old = sys.getswitchinterval()
@@ -180,7 +200,7 @@ def check_stress(case):
                     barrier.wait(10)
                     results[i] = ("ok", [_run_query(av, jbasis, q) for q in prog])
                 except BaseException as exc:  # pylint: disable=broad-except
-                    results[i] = ("exc", f"{type(exc).__name__}: {exc}")
+                    results[i] = ("exc" if engine.is_lib_exception(exc) else "harness", f"{type(exc).__name__}: {exc}")
 
             ths = [threading.Thread(target=work, args=(i, prog), daemon=True) for i, prog in enumerate(programs)]
             for t in ths:
@@ -190,6 +210,8 @@ def check_stress(case):
                 if t.is_alive():
                     return BAD("stress_hang", {"rep": rep})
             for i, (status, val) in enumerate(results):
+                if status == "harness":
+                    raise engine.HarnessError(f"C07 stress: exception outside the library: {val}")
                 if status != "ok":
                     return BAD("stress_exception", {"thread": i, "exc": val, "rep": rep})
                 if val != want[i]:
